@@ -99,13 +99,15 @@ type Sim struct {
 	nextPort int
 
 	// fine-grained mode: yield points inside hc are park points for a per-run subset of the sites
-	Fine      bool
-	SiteSalt  uint64
-	SiteMod   uint64
-	StallMod  uint64 // one in StallMod parks stalls the goroutine for a while (0: never)
-	SlowMod   uint64 // > 0: one in SlowMod logical actors is slow in this run: it only runs when nobody else can
-	schedGoid int64
-	goConn    map[int64]int
+	Fine       bool
+	SiteSalt   uint64
+	SiteMod    uint64
+	StallMod   uint64 // one in StallMod parks stalls the goroutine for a while (0: never)
+	SlowMod    uint64 // > 0: one in SlowMod logical actors is slow in this run: it only runs when nobody else can
+	schedGoid  int64
+	spawnCount map[string]int
+	tickets    []string
+	goConn     map[int64]int
 }
 
 // debugEnabledSets (VERIF_LOG_ENABLED=1) logs the whole enabled set before every step.
@@ -276,6 +278,44 @@ func unsafeToPark() string {
 			return ""
 		}
 	}
+}
+
+// spawnTicket is called by a goroutine of the tree under test right before it starts another one
+// (instrumented build). It names the child after its parent and returns a ticket; 0 means the
+// child runs free (the parent is the transport set-up, the scheduler, or unidentified).
+func (s *Sim) spawnTicket(site int) int {
+	id := goid()
+	if id == s.schedGoid {
+		return 0
+	}
+	conn := s.GoroutineConn()
+	parent := s.ActorName(conn)
+	if parent == "transport" || parent == "anon" || parent == "accept" || parent == "stop" || (conn < 0 && (strings.HasPrefix(parent, "srv:") || strings.HasPrefix(parent, "bg:"))) {
+		return 0
+	}
+	s.mu.Lock()
+	defer s.mu.Unlock()
+	if s.spawnCount == nil {
+		s.spawnCount = map[string]int{}
+	}
+	key := parent + ">go" + strconv.Itoa(site)
+	s.spawnCount[key]++
+	s.tickets = append(s.tickets, key+"#"+strconv.Itoa(s.spawnCount[key]))
+	s.Stats["probe.goroutine_started_by_hc_parked_at_birth"]++
+	return len(s.tickets)
+}
+
+// enterSpawned is the first thing a goroutine with a ticket does: it takes its name and parks.
+func (s *Sim) enterSpawned(ticket int) {
+	s.mu.Lock()
+	if ticket < 1 || ticket > len(s.tickets) {
+		s.mu.Unlock()
+		return
+	}
+	name := s.tickets[ticket-1]
+	s.actors[goid()] = name
+	s.mu.Unlock()
+	s.Park("go", name, -1, "", nil)
 }
 
 // GoroutineConn returns the connection the calling goroutine was last seen working on (-1: none).
